@@ -8,6 +8,7 @@
   so the transform theorems are generic in the delimiter / prefix argument.
 -/
 import BklProofs.Lemmas.Encode
+import BklProofs.Lemmas.C14Codec
 namespace Bkl
 
 /-! ## C14_stack — a list of specs is applied left to right, stopping at the first failure -/
@@ -323,5 +324,330 @@ example : fmtV (.int (-7)) = "-7" := by decide
 example : fmtV (.int 0) = "0" := by decide
 example : fmtV (.list [.int 1, .str "a", .null]) = "[1 a <nil>]" := by decide
 example : fmtV (.map [("a", .int 1), ("b", .bool true)]) = "map[a:1 b:true]" := by decide
+
+/-! ## C14_decode_encode — `$decode: f` inverts `$encode: f` for an abstract text codec
+
+  The json / yaml / toml codecs are third-party code outside the model (`encodeString` answers
+  `.codec`, `process2` answers `Err.unmodelled`).  `TextCodec` (BklProofs/Lemmas/C14Codec.lean)
+  is the interface process2.go uses (`MarshalStream [v]`, `UnmarshalStream` + `normalize`) with
+  the single assumption `rt`: a representable value is written as one document that reads back
+  as itself.  `encodeWith c` / `decodeWith c` are process2Encode / process2DecodeStringMap with
+  that codec plugged in; `encodeModel` / `decodeModel` are the same code as the model has it. -/
+
+/-- The model's `process2` on a map (whose `$repeat` expansion is trivial) dispatches exactly to
+    `encodeModel` / `decodeModel`, in this order: `$encode`, `$decode`, `$value`, entries. -/
+theorem C14_process2_directive_dispatch (fuel : Nat) (docs : List Val) (root : Val) (ec : Vars)
+    (kvs : Fields) (hs : Fields.sortedKeysB kvs = true) (hr : noRepeatEntries kvs) :
+    process2 (fuel + 1) docs root ec (.map kvs) =
+      match fget kvs "$encode" with
+      | some spec => encodeModel fuel docs root ec (fdel kvs "$encode") spec
+      | none =>
+        match fget kvs "$decode" with
+        | some (.str f) => decodeModel (fdel kvs "$decode") f
+        | some _ => .error .invalidType
+        | none =>
+          match fget kvs "$value" with
+          | some v =>
+            if (fdel kvs "$value").length != 0 then .error .extraKeys
+            else process2 fuel docs root ec v
+          | none => process2Entries fuel docs root ec kvs :=
+  process2_map_noRepeat fuel docs root ec kvs hs hr
+
+example : Fields.sortedKeysB [("$encode", Val.str "json"), ("$value", .int 1)] = true ∧
+    noRepeatEntries [("$encode", Val.str "json"), ("$value", .int 1)] := by
+  refine ⟨by decide, ?_⟩
+  intro p hp m hm
+  simp only [List.mem_cons, List.mem_nil_iff, or_false] at hp
+  rcases hp with rfl | rfl <;> cases hm
+
+/-- `encodeWith c` / `decodeWith c` extend the model conservatively: whenever the model's own
+    evaluation does not stop with `unmodelled`, plugging in a codec changes nothing. -/
+theorem C14_codec_conservative (c : TextCodec) (fuel : Nat) (docs : List Val) (root : Val)
+    (ec : Vars) (rest : Fields) :
+    (∀ spec, encodeModel fuel docs root ec rest spec ≠ .error .unmodelled →
+      encodeWith c fuel docs root ec rest spec = encodeModel fuel docs root ec rest spec) ∧
+    (∀ f, decodeModel rest f ≠ .error .unmodelled →
+      decodeWith c fuel docs root ec rest f = decodeModel rest f) :=
+  ⟨fun _ h => encodeWith_conservative c _ _ _ _ _ _ _ rfl h,
+   fun _ h => decodeWith_conservative c _ _ _ _ _ _ _ rfl h⟩
+
+example : decodeModel [("$value", .int 1)] "json" ≠ .error .unmodelled := by
+  intro h; cases h
+
+/-- `$encode: f` with `$value: v`: the codec receives the *evaluation* `w` of `v` (validated),
+    and the result is its text. -/
+theorem C14_encode_text (c : TextCodec) (fuel : Nat) (docs : List Val) (root : Val) (ec : Vars)
+    (v w : Val) (hv : ∀ m, v = .map m → fget m "$repeat" = none)
+    (he : process2 fuel docs root ec v = .ok w) (hval : validate w = .ok ()) :
+    encodeWith c (fuel + 1) docs root ec [("$value", v)] (.str c.name) =
+      match c.enc w with
+      | some s => .ok (.str s)
+      | none => .error .other :=
+  encodeWith_of_eval c fuel docs root ec v w hv he hval
+
+/-- `$decode: f` with a string `$value`: exactly one document, which is then evaluated by
+    `process2` (at the depth of the directive map). -/
+theorem C14_decode_text (c : TextCodec) (fuel : Nat) (docs : List Val) (root : Val) (ec : Vars)
+    (s : String) :
+    decodeWith c fuel docs root ec [("$value", .str s)] c.name =
+      match c.decs s with
+      | none => .error .other
+      | some [d] => process2 fuel docs root ec d
+      | some _ => .error .unmarshal :=
+  decodeWith_of_decs c fuel docs root ec s
+
+/-- General form: for ANY `v` (directives allowed) whose evaluation `w` validates and is
+    representable, decoding the encoding gives the evaluation *of `w`* — the decoded document is
+    evaluated once more. -/
+theorem C14_decode_encode_eval (c : TextCodec) (fuel : Nat) (docs : List Val) (root : Val)
+    (ec : Vars) (v w : Val) (hv : ∀ m, v = .map m → fget m "$repeat" = none)
+    (he : process2 fuel docs root ec v = .ok w) (hval : validate w = .ok ()) (hr : c.repr w) :
+    (encodeWith c (fuel + 1) docs root ec [("$value", v)] (.str c.name) >>= fun t =>
+      decodeWith c (fuel + 1) docs root ec [("$value", t)] c.name)
+      = process2 (fuel + 1) docs root ec w := by
+  obtain ⟨s, h1, h2⟩ := c.rt w hr
+  rw [encodeWith_of_eval c fuel docs root ec v w hv he hval, h1]
+  simp only [e_ok_bind]
+  rw [decodeWith_of_decs, h2]
+
+/-- **C14_decode_encode**: for a directive-free (`plain`) well-formed value `v` whose evaluation
+    (`v` with nulls dropped, C06) the format can represent, `$decode: f` of `$encode: f` of `v`
+    is the evaluation of `v`. -/
+theorem C14_decode_encode (c : TextCodec) (fuel : Nat) (docs : List Val) (root : Val) (ec : Vars)
+    (v : Val) (hp : plain v = true) (hw : v.WF) (hd : depth v < fuel)
+    (hr : c.repr (dropNulls v)) :
+    (encodeWith c (fuel + 1) docs root ec [("$value", v)] (.str c.name) >>= fun t =>
+      decodeWith c (fuel + 1) docs root ec [("$value", t)] c.name)
+      = process2 (fuel + 1) docs root ec v ∧
+    process2 (fuel + 1) docs root ec v = .ok (dropNulls v) := by
+  have hp' : plain (dropNulls v) = true := (e_allStr_dropNulls_all _).1 v hp
+  have hw' : (dropNulls v).WF := e_wf_dropNulls_all.1 v hw
+  have hd' : depth (dropNulls v) < fuel + 1 := by
+    have := e_depth_dropNulls_all.1 v; omega
+  have e1 := e_process2_plain fuel docs root ec v hp hw hd
+  have e2 := e_process2_plain (fuel + 1) docs root ec v hp hw (by omega)
+  have e3 := e_process2_plain (fuel + 1) docs root ec (dropNulls v) hp' hw' hd'
+  rw [e_dropNulls_idem] at e3
+  refine ⟨?_, e2⟩
+  rw [C14_decode_encode_eval c fuel docs root ec v (dropNulls v) (cx_plain_noRepeat hp) e1
+    (e_validate_plain_all.1 _ hp') hr, e3, e2]
+
+local instance instDecWF_C14 (v : Val) : Decidable v.WF := by unfold Val.WF; infer_instance
+
+/-- non-vacuity: a nested value with a null to drop, for the concrete `c14_toyCodec` -/
+example : plain (.map [("a", .int 1), ("b", .list [.str "x", .null, .bool true]), ("c", .null)])
+      = true ∧
+    (Val.map [("a", .int 1), ("b", .list [.str "x", .null, .bool true]), ("c", .null)]).WF ∧
+    depth (.map [("a", .int 1), ("b", .list [.str "x", .null, .bool true]), ("c", .null)]) < 3 ∧
+    c14_toyCodec.repr
+      (dropNulls (.map [("a", .int 1), ("b", .list [.str "x", .null, .bool true]), ("c", .null)]))
+    := by
+  refine ⟨by decide, by decide, by decide, Or.inl ?_⟩
+  decide
+
+/-- … and the round trip on it, through the text `{"a":1,"b":["x",true]}` -/
+example :
+    encodeWith c14_toyCodec 4 [] .null []
+      [("$value", .map [("a", .int 1), ("b", .list [.str "x", .null, .bool true]), ("c", .null)])]
+      (.str "json") = .ok (.str "{\"a\":1,\"b\":[\"x\",true]}\n") ∧
+    decodeWith c14_toyCodec 4 [] .null [] [("$value", .str "{\"a\":1,\"b\":[\"x\",true]}\n")] "json"
+      = .ok (.map [("a", .int 1), ("b", .list [.str "x", .bool true])]) := by
+  constructor
+  · have := C14_encode_text c14_toyCodec 3 [] .null []
+      (.map [("a", .int 1), ("b", .list [.str "x", .null, .bool true]), ("c", .null)]) c14_exVal
+      (cx_plain_noRepeat (by decide))
+      (e_process2_plain 3 _ _ _ _ (by decide) (by decide) (by decide)) (by rfl)
+    rw [show c14_toyCodec.name = "json" from rfl] at this
+    rw [this]
+    simp [c14_toyCodec]; rfl
+  · have := C14_decode_text c14_toyCodec 4 [] .null [] c14_exText
+    rw [show c14_toyCodec.name = "json" from rfl] at this
+    rw [show "{\"a\":1,\"b\":[\"x\",true]}\n" = c14_exText from rfl, this]
+    simp only [c14_toyCodec, if_true]
+    exact e_process2_plain 4 _ _ _ c14_exVal (by decide) (by decide) (by decide)
+
+/-- The `plain` hypothesis of `C14_decode_encode` cannot simply be dropped: decoding evaluates
+    the decoded document again (`C14_decode_encode_eval`), so when the evaluation of `v` is
+    itself a directive string the round trip differs from the evaluation of `v`.  Here
+    `v = $env:X` with `X = $"{a}"` in the document `{a: 1}`: `v` evaluates to the string `$"{a}"`,
+    but `$decode` of its `$encode` gives `"1"`. -/
+theorem C14_decode_encode_not_plain_counterexample :
+    let root : Val := .map [("a", .int 1)]
+    let ec : Vars := [("$env:X", .str "$\"{a}\"")]
+    process2 3 [] root ec (.str "$env:X") = .ok (.str "$\"{a}\"") ∧
+    (encodeWith c14_toyCodec 3 [] root ec [("$value", .str "$env:X")] (.str c14_toyCodec.name) >>= fun t =>
+      decodeWith c14_toyCodec 3 [] root ec [("$value", t)] c14_toyCodec.name) = .ok (.str "1") := by
+  intro root ec
+  have h0 : ∀ n, process2 (n + 1) [] root ec (.str "$env:X") = .ok (.str "$\"{a}\"") := by
+    intro n
+    rw [cx_process2_str, show "$env:X" = "$env:" ++ "X" from by decide, process2String_env]
+    rfl
+  refine ⟨h0 2, ?_⟩
+  have hval : validate (.str "$\"{a}\"") = .ok () := by
+    simp only [validate, validateString]; rfl
+  rw [encodeWith_of_eval c14_toyCodec 2 [] root ec _ _ (fun m h => by cases h) (h0 1) hval]
+  have henc : c14_toyCodec.enc (.str "$\"{a}\"") = some "$\"{a}\"" := by
+    have : Val.str "$\"{a}\"" ≠ c14_exVal := by simp [c14_exVal]
+    simp [c14_toyCodec, this]
+  simp only [henc, e_ok_bind]
+  rw [decodeWith_of_decs]
+  have hdec : c14_toyCodec.decs "$\"{a}\"" = some [.str "$\"{a}\""] := by
+    have h1 : "$\"{a}\"" ≠ c14_exText := by decide
+    have h2 : "$\"{a}\"" ≠ "" := by decide
+    simp [c14_toyCodec, h1, h2]
+  simp only [hdec]
+  rw [cx_process2_str, process2String_interp 2 [] root ec _ "{a}".toList (by decide)]
+  have hs : interpSegs "{a}".toList = [.ref "a".toList] := by decide
+  rw [hs, interpSpec_subst 2 [] root ec _ (fun _ => .int 1)]
+  · exact congrArg Except.ok (by decide)
+  · intro r hr
+    simp only [List.mem_singleton, Seg.ref.injEq] at hr
+    subst hr
+    exact ⟨.int 1, getWithVar_simple_key _ _ _ _ _ (by simpa using isPlainRef_a) (by decide)
+      (by decide), Or.inl ⟨fun s h => (by cases h), rfl⟩⟩
+
+/-- Where the model stops: on the two directive maps of the round trip the model's `process2`
+    answers `unmodelled` — exactly the two places where `encodeWith` / `decodeWith` call the
+    codec instead. -/
+theorem C14_model_stops_at_codec (fuel : Nat) (docs : List Val) (root : Val) (ec : Vars)
+    (f s : String) (v : Val) (hf : isCodecFormat f = true)
+    (hp : plain v = true) (hw : v.WF) (hd : depth v < fuel) :
+    process2 (fuel + 2) docs root ec (.map [("$encode", .str f), ("$value", v)])
+      = .error .unmodelled ∧
+    process2 (fuel + 1) docs root ec (.map [("$decode", .str f), ("$value", .str s)])
+      = .error .unmodelled := by
+  constructor
+  · rw [process2_map_noRepeat _ _ _ _ _ (by simp [Fields.sortedKeysB])]
+    · have hp' : plain (dropNulls v) = true := (e_allStr_dropNulls_all _).1 v hp
+      simp only [cx_process2MapTail, fget, fdel, if_true, encodeModel,
+        show ("$value" = "$encode") = False from by decide, if_false,
+        process2_value_only _ _ _ _ _ (cx_plain_noRepeat hp),
+        e_process2_plain fuel docs root ec v hp hw hd, e_ok_bind,
+        e_validate_plain_all.1 _ hp', encodeAny, encodeString_codec _ hf]
+      rfl
+    · intro p hp' m hm
+      simp only [List.mem_cons, List.mem_nil_iff, or_false] at hp'
+      rcases hp' with rfl | rfl
+      · cases hm
+      · exact cx_plain_noRepeat hp m hm
+  · rw [process2_map_noRepeat _ _ _ _ _ (by simp [Fields.sortedKeysB])]
+    · simp [cx_process2MapTail, fget, fdel, decodeModel, hf]
+      rfl
+    · intro p hp' m hm
+      simp only [List.mem_cons, List.mem_nil_iff, or_false] at hp'
+      rcases hp' with rfl | rfl <;> cases hm
+
+example : isCodecFormat "yaml" = true := by simp [isCodecFormat]
+
+/-! ## C14_decode_bad_args — the argument checks of `$decode`, in the order of the Go code -/
+
+/-- `$decode: f` (codec-aware version): a missing `$value`, a non-string `$value`, any key beside
+    `$decode` / `$value`, an unknown format name, and a text that does not hold exactly one
+    document are errors — `invalidType`, `invalidType`, `extraKeys`, `unknownFormat`,
+    `unmarshal` respectively, checked in this order. -/
+theorem C14_decode_bad_args (c : TextCodec) (fuel : Nat) (docs : List Val) (root : Val) (ec : Vars)
+    (rest : Fields) (f : String) :
+    (fget rest "$value" = none →
+      decodeWith c fuel docs root ec rest f = .error .invalidType) ∧
+    (∀ w, fget rest "$value" = some w → (∀ s, w ≠ .str s) →
+      decodeWith c fuel docs root ec rest f = .error .invalidType) ∧
+    (∀ s, fget rest "$value" = some (.str s) → fdel rest "$value" ≠ [] →
+      decodeWith c fuel docs root ec rest f = .error .extraKeys) ∧
+    (∀ s, fget rest "$value" = some (.str s) → fdel rest "$value" = [] → f ≠ c.name →
+      isCodecFormat f = false → decodeWith c fuel docs root ec rest f = .error .unknownFormat) ∧
+    (∀ s ds, fget rest "$value" = some (.str s) → fdel rest "$value" = [] → f = c.name →
+      c.decs s = some ds → ds.length ≠ 1 →
+      decodeWith c fuel docs root ec rest f = .error .unmarshal) := by
+  refine ⟨fun h => ?_, fun w h hw => ?_, fun s h he => ?_, fun s h he hf hc => ?_,
+    fun s ds h he hf hd hl => ?_⟩
+  · simp only [decodeWith, h]; rfl
+  · simp only [decodeWith, h]
+    cases w <;> first | exact absurd rfl (hw _) | rfl
+  · have : ((fdel rest "$value").length != 0) = true := by
+      cases hl : fdel rest "$value" with
+      | nil => exact absurd hl he
+      | cons a t => rfl
+    simp only [decodeWith, h, this, if_true]; rfl
+  · simp only [decodeWith, h, he, List.length_nil, bne_self_eq_false, Bool.false_eq_true,
+      if_false, hf, hc]; rfl
+  · subst hf
+    simp only [decodeWith, h, he, List.length_nil, bne_self_eq_false, Bool.false_eq_true,
+      if_false, if_true, hd]
+    match ds, hl with
+    | [], _ => rfl
+    | _ :: _ :: _, _ => rfl
+    | [d], hl => exact absurd rfl hl
+
+/-- non-vacuity of each clause, on the concrete codec (the empty text holds no document) -/
+example : fget [("x", Val.int 1)] "$value" = none ∧
+    (fget [("$value", Val.int 1)] "$value" = some (.int 1) ∧ ∀ s, Val.int 1 ≠ .str s) ∧
+    (fget [("$value", Val.str "t"), ("x", .int 1)] "$value" = some (.str "t") ∧
+      fdel [("$value", Val.str "t"), ("x", .int 1)] "$value" ≠ []) ∧
+    ("xml" ≠ c14_toyCodec.name ∧ isCodecFormat "xml" = false) ∧
+    (c14_toyCodec.decs "" = some [] ∧ ([] : List Val).length ≠ 1) := by
+  refine ⟨by decide, ⟨by decide, fun s h => by cases h⟩, ⟨by decide, by decide⟩,
+    ⟨by decide, by simp [isCodecFormat]⟩, ⟨by simp [c14_toyCodec]; decide, by decide⟩⟩
+
+/-- The same three argument errors are what the *model's* `process2` answers on a `$decode` map
+    (these cases never reach the codec, so they are inside the model), plus: the `$decode`
+    argument itself must be a string. -/
+theorem C14_decode_bad_args_model (fuel : Nat) (docs : List Val) (root : Val) (ec : Vars)
+    (kvs : Fields) (hs : Fields.sortedKeysB kvs = true) (hr : noRepeatEntries kvs)
+    (he : fget kvs "$encode" = none) :
+    (∀ d, fget kvs "$decode" = some d → (∀ f, d ≠ .str f) →
+      process2 (fuel + 1) docs root ec (.map kvs) = .error .invalidType) ∧
+    (∀ f, fget kvs "$decode" = some (.str f) → fget kvs "$value" = none →
+      process2 (fuel + 1) docs root ec (.map kvs) = .error .invalidType) ∧
+    (∀ f w, fget kvs "$decode" = some (.str f) → fget kvs "$value" = some w →
+      (∀ s, w ≠ .str s) → process2 (fuel + 1) docs root ec (.map kvs) = .error .invalidType) ∧
+    (∀ f s, fget kvs "$decode" = some (.str f) → fget kvs "$value" = some (.str s) →
+      fdel (fdel kvs "$decode") "$value" ≠ [] →
+      process2 (fuel + 1) docs root ec (.map kvs) = .error .extraKeys) ∧
+    (∀ f s, fget kvs "$decode" = some (.str f) → fget kvs "$value" = some (.str s) →
+      fdel (fdel kvs "$decode") "$value" = [] → isCodecFormat f = false →
+      process2 (fuel + 1) docs root ec (.map kvs) = .error .unknownFormat) := by
+  have hv : fget (fdel kvs "$decode") "$value" = fget kvs "$value" :=
+    fget_fdel_ne _ _ _ (by decide)
+  rw [process2_map_noRepeat fuel docs root ec kvs hs hr]
+  simp only [cx_process2MapTail, he]
+  refine ⟨fun d h hd => ?_, fun f h h2 => ?_, fun f w h h2 hw => ?_, fun f s h h2 h3 => ?_,
+    fun f s h h2 h3 h4 => ?_⟩
+  · rw [h]
+    cases d <;> first | exact absurd rfl (hd _) | rfl
+  · simp only [h, decodeModel, hv, h2]; rfl
+  · simp only [h, decodeModel, hv, h2]
+    rfl
+  · have : ((fdel (fdel kvs "$decode") "$value").length != 0) = true := by
+      cases hl : fdel (fdel kvs "$decode") "$value" with
+      | nil => exact absurd hl h3
+      | cons a t => rfl
+    simp only [h, decodeModel, hv, h2, this, if_true]; rfl
+  · simp only [h, decodeModel, hv, h2, h3, List.length_nil, bne_self_eq_false,
+      Bool.false_eq_true, if_false, h4]; rfl
+
+/-- tests: the four malformed `$decode` maps, evaluated by the model -/
+example :
+    process2 2 [] .null [] (.map [("$decode", .int 1), ("$value", .str "1")])
+      = .error .invalidType ∧
+    process2 2 [] .null [] (.map [("$decode", .str "json")]) = .error .invalidType ∧
+    process2 2 [] .null [] (.map [("$decode", .str "json"), ("$value", .int 1)])
+      = .error .invalidType ∧
+    process2 2 [] .null [] (.map [("$decode", .str "json"), ("$value", .str "1"), ("x", .int 1)])
+      = .error .extraKeys ∧
+    process2 2 [] .null [] (.map [("$decode", .str "xml"), ("$value", .str "1")])
+      = .error .unknownFormat := by
+  have nr : ∀ kvs : Fields, (∀ p ∈ kvs, ∀ m, p.2 ≠ Val.map m) → noRepeatEntries kvs :=
+    fun kvs h p hp m hm => absurd hm (h p hp m)
+  refine ⟨?_, ?_, ?_, ?_, ?_⟩
+  · exact (C14_decode_bad_args_model 1 [] .null [] _ (by decide)
+      (nr _ (by simp)) (by decide)).1 (.int 1) rfl (fun f h => by cases h)
+  · exact (C14_decode_bad_args_model 1 [] .null [] _ (by decide)
+      (nr _ (by simp)) (by decide)).2.1 "json" rfl rfl
+  · exact (C14_decode_bad_args_model 1 [] .null [] _ (by decide)
+      (nr _ (by simp)) (by decide)).2.2.1 "json" (.int 1) rfl rfl (fun f h => by cases h)
+  · exact (C14_decode_bad_args_model 1 [] .null [] _ (by decide)
+      (nr _ (by simp)) (by decide)).2.2.2.1 "json" "1" rfl rfl (by decide)
+  · exact (C14_decode_bad_args_model 1 [] .null [] _ (by decide)
+      (nr _ (by simp)) (by decide)).2.2.2.2 "xml" "1" rfl rfl rfl (by simp [isCodecFormat])
 
 end Bkl
